@@ -8,6 +8,7 @@ import itertools
 import numpy as np
 
 from harness import curves, growth, monitor, numeric, par, simpl
+from harness import enums
 
 SIMPLIFIERS = ["rdp", "grdp", "rdp_fixed", "mp_grdp", "min_point_rdp"]
 DETECTORS = ["curvature", "dfdt", "menger", "lmethod", "kneedle"]
@@ -84,7 +85,7 @@ def _record(item):
         if not ok:
             continue
         ev["out"] = _ints(k2)
-        ok, k3, ev = stage("cluster", pp.filter_clusters, (PR, k2, getattr(clustering, cf["linkage"]), cf["t"], kr.ClusterRanking(cf["mode"])))
+        ok, k3, ev = stage("cluster", pp.filter_clusters, (PR, k2, getattr(clustering, cf["linkage"]), cf["t"], enums.pick(kr.ClusterRanking, cf["mode"])))
         if not ok:
             continue
         ev["out"] = _ints(k3)
